@@ -4,11 +4,10 @@
    Proved as well (SparseLUElim.v): every elimination step is the dense row operation in ANY arithmetic (fill-in is
    created on demand, storage order irrelevant), and with non-vanishing pivots the stored factors satisfy
    A = (I + L) U row by row, for every matrix size (exact arithmetic).
-   NOT proved: exactness of the forward / backward substitution loops (A (solve b) = b); covered by the exact-rational
-   correspondence (K-solve) only.
-   (* FULL: forall A b, pivots_nonzero A -> csr_apply A (lu_solve (lu_factor A) b) = b *) *)
+   The FULL statement is proved too (SparseLUSolve.v): with non-vanishing pivots, A (solve b) = b for every matrix size.
+   What remains outside: floating-point rounding (K-solve measures a row-wise backward error) and finding F4. *)
 From Coq Require Import List ZArith Bool Permutation Reals.
-From GMGP Require Import Scalar ScalarR SparseLUDefs SparseLUProofs SparseLUElim.
+From GMGP Require Import Scalar ScalarR SparseLUDefs SparseLUProofs SparseLUElim SparseLUSolve.
 Import ListNotations.
 
 Theorem C16_row_map_overwrite : forall (S : Sc) j (v : S) r, get0 j (set_entry j v r) = v.
@@ -51,5 +50,16 @@ Theorem C16_lu_identity : forall rows : list (list (Z * R)), pivots_nonzero 0 ro
       exists Li Ui, nth_error Ls n = Some Li /\ nth_error Us n = Some Ui /\ row_identity a Li Ui (firstn n Us).
 Proof. exact lu_factor_identity. Qed.
 
+(* the solve: for every n x n matrix given as CSR rows in any storage order (columns inside the matrix), with non-vanishing
+   pivots, the vector returned by solveInPlace satisfies A x = b exactly (exact arithmetic) *)
+Theorem C16_solve_correct : forall (rows : list (list (Z * R))) (b : list R),
+  let n := length rows in
+  length b = n ->
+  (forall a, In a rows -> forall e, In e a -> (0 <= fst e < Z.of_nat n)%Z) ->
+  pivots_nonzero 0 rows [] ->
+  @csr_apply Rsc rows (@lu_solve Rsc (@lu_factor Rsc rows) b) = b.
+Proof. exact lu_solve_correct. Qed.
+
 Print Assumptions C16_elimination_step_is_row_operation.
+Print Assumptions C16_solve_correct.
 Print Assumptions C16_lu_identity.
